@@ -260,6 +260,30 @@ func checkC16(c *Ctx) Meta {
 			errs := errResults(d)
 			direct := len(errs) > 0 && flowsToReturn(f, aliasesForward(f, errs[0])) && len(nilTestsOf(f, errs[0])) == 0
 			if direct {
+				// …on every return that can follow the decoding, not only on one of them (a return that
+				// hands the message on with a constant nil error passes a zero-valued message of a frame
+				// whose body did not decode)
+				al := aliasesForward(f, errs[0])
+				after := reach(f, d, nil, nil)
+				for _, ret := range returnsOf(f) {
+					if !after(ret) || len(ret.Results) == 0 {
+						continue
+					}
+					last := ret.Results[len(ret.Results)-1]
+					carries := al[last]
+					if !carries {
+						valueOrigins(f, last, func(r ssa.Value) {
+							if al[r] {
+								carries = true
+							}
+						})
+					}
+					if !carries {
+						direct = false
+					}
+				}
+			}
+			if direct {
 				c.OK("C16-RECV", key, c.Pos(d.Pos()), "DecodeMessage's results are returned as they are")
 				continue
 			}
